@@ -665,6 +665,8 @@ func checkC03(p *Prog, r *Report) {
 	p.unchangedByHash(r, a, "E5.unchanged-by-hash")
 	p.recordAfterBuild(r, a, "E5.record-after-build")
 	p.sourceHashContentOnly(r, a)
+	p.outputExistenceAcceptsDirs(r, a)
+	p.recordNotDestroyed(r, a)
 	// (4) MoveHash before the move
 	rule := "E5.movehash-before-move"
 	mo := a.moveOutput
@@ -927,4 +929,71 @@ func (p *Prog) sourceHashContentOnly(r *Report, a *gateAnchors) {
 	if n < 3 {
 		r.unresolved(rule, "hash writes in sourceHash (found "+itoa(n)+")")
 	}
+}
+
+// outputExistenceAcceptsDirs: an output may be a directory. The test in the up-to-date predicate that treats an output
+// as missing must therefore not be one that rejects directories (fs.FileExists: Lstat && !IsDir).
+func (p *Prog) outputExistenceAcceptsDirs(r *Report, a *gateAnchors) {
+	rule := "E9.output-exists-accepts-directories"
+	n := 0
+	eachInstr(a.needs, false, func(_ *ssa.Function, i ssa.Instruction) {
+		c, ok := i.(*ssa.Call)
+		if !ok || len(c.Call.Args) != 1 || typeString(c.Type()) != "bool" {
+			return
+		}
+		g := c.Call.StaticCallee()
+		if g == nil || g.Blocks == nil {
+			return
+		}
+		// the argument is built from an element of target.Outputs()
+		if a.outputs == nil || !derivedFromFn(c.Call.Args[0], a.outputs) {
+			return
+		}
+		n++
+		rejects := ""
+		for _, h := range p.closure([]*ssa.Function{g}, 2, nil) {
+			eachInstr(h, false, func(_ *ssa.Function, j ssa.Instruction) {
+				cc := callCommon(j)
+				if cc == nil {
+					return
+				}
+				switch {
+				case cc.IsInvoke() && (cc.Method.Name() == "IsDir" || cc.Method.Name() == "IsRegular"):
+					rejects = cc.Method.Name()
+				case strings.HasSuffix(calleeName(cc), "FileMode).IsDir") || strings.HasSuffix(calleeName(cc), "FileMode).IsRegular"):
+					rejects = calleeName(cc)
+				}
+			})
+		}
+		r.check(rejects == "", rule, "the existence test on outputs ("+g.Name()+") does not look at the file kind", p.pos(c.Pos()), fnName(a.needs), g.Name()+" is a plain existence test", "the up-to-date predicate tests each output with "+g.Name()+", which looks at "+rejects+": a directory output counts as missing, so a rule with outs=[\"tree\"] re-runs its command on every invocation although nothing changed")
+	})
+	if n == 0 {
+		r.unresolved(rule, "existence test on the elements of target.Outputs() in the up-to-date predicate")
+	}
+}
+
+// recordNotDestroyed: the record of what was built is stamped (also) on the target's metadata file, which is the only
+// carrier for a rule without declared outputs. StoreTargetMetadata removes and recreates that file, so it must not
+// run after the record was written.
+func (p *Prog) recordNotDestroyed(r *Report, a *gateAnchors) {
+	rule := "E5.record-not-destroyed"
+	stm := p.Fn("build", "StoreTargetMetadata")
+	calc := p.Fn("build", "calculateAndCheckRuleHash")
+	if stm == nil || calc == nil || a.buildTarget == nil {
+		r.unresolved(rule, "build.StoreTargetMetadata / calculateAndCheckRuleHash / buildTarget")
+		return
+	}
+	bad := false
+	var site token.Pos
+	nS := 0
+	for _, sc := range callsInFn(a.buildTarget, stm) {
+		nS++
+		for _, cc := range callsInFn(a.buildTarget, calc) {
+			if existsPath(a.buildTarget, cc, sc, nil) {
+				bad = true
+				site = sc.Pos()
+			}
+		}
+	}
+	r.check(!bad, rule, "the metadata file is not rewritten after the rule hash was recorded", p.pos(site), fnName(a.buildTarget), itoa(nS)+" StoreTargetMetadata call(s) in buildTarget, none reachable from calculateAndCheckRuleHash", "buildTarget stores the target metadata (which removes and recreates the metadata file) after calculateAndCheckRuleHash stamped the rule-hash record on that file: for a rule with no declared outputs (only output_dirs / a post-build function) this is the only record, so the next invocation finds none and rebuilds, every time")
 }
